@@ -2,8 +2,26 @@
 check only has to build its own generated schemas."""
 
 
+def prune_schema_cache(max_age_h=12):
+    """every change in /repo invalidates the per-schema library cache; drop entries nobody has used for a while"""
+    import os, shutil, time
+    from .build import BUILD
+    d = os.path.join(BUILD, "schemas")
+    if not os.path.isdir(d):
+        return
+    now = time.time()
+    for n in os.listdir(d):
+        p = os.path.join(d, n)
+        try:
+            if os.path.isdir(p) and now - os.path.getmtime(p) > max_age_h * 3600:
+                shutil.rmtree(p, ignore_errors=True)
+        except OSError:
+            pass
+
+
 def run():
     from . import engines, toolsim, schemas, kitchen, p21model as pm
+    prune_schema_cache()
     toolsim.shim()
     for fl in ("plain", "san"):
         for t in ("check-express", "exppp", "exp2cxx", "exp2python"):
